@@ -4,6 +4,7 @@ import (
 	"fmt"
 	"go/types"
 	"math/big"
+	"strconv"
 	"strings"
 
 	"golang.org/x/tools/go/ssa"
@@ -39,7 +40,7 @@ func init() {
 		// ---- errors / fmt ----
 		"errors.Is":   errorsIs,
 		"fmt.Errorf":  fmtErrorf,
-		"fmt.Sprintf": func(in *Interp, fn *ssa.Function, a []Value) Value { return strFromGo("<sprintf>") },
+		"fmt.Sprintf": fmtSprintf,
 		"fmt.Sprint":  func(in *Interp, fn *ssa.Function, a []Value) Value { return strFromGo("<sprint>") },
 		"fmt.Println": func(in *Interp, fn *ssa.Function, a []Value) Value { return Tuple{BV{W: 64}, Iface{}} },
 		"fmt.Printf":  func(in *Interp, fn *ssa.Function, a []Value) Value { return Tuple{BV{W: 64}, Iface{}} },
@@ -72,6 +73,31 @@ func init() {
 			return Slice{A: arr}
 		},
 		"strings.Join": stringsJoin,
+		"internal/bytealg.Compare": func(in *Interp, fn *ssa.Function, a []Value) Value {
+			return in.bytesCompare(Str{B: sliceBytes(a[0].(Slice))}, Str{B: sliceBytes(a[1].(Slice))})
+		},
+		"internal/bytealg.CompareString": func(in *Interp, fn *ssa.Function, a []Value) Value {
+			return in.bytesCompare(a[0].(Str), a[1].(Str))
+		},
+		"sort.Slice":       sortSlice,
+		"sort.SliceStable": sortSlice,
+		// strings.Builder: everything but the two unsafe leaves is interpreted from source
+		"(*strings.Builder).copyCheck": func(in *Interp, fn *ssa.Function, a []Value) Value { return nil },
+		"(*strings.Builder).String": func(in *Interp, fn *ssa.Function, a []Value) Value {
+			p, ok := a[0].(*Value)
+			if !ok || p == nil {
+				in.goPanic("nil pointer dereference (strings.Builder)")
+			}
+			st, ok := (*p).(Struct)
+			if !ok || len(st.F) < 2 {
+				panic(in.unsupported("strings.Builder layout"))
+			}
+			sl, ok := st.F[1].(Slice)
+			if !ok {
+				return Str{}
+			}
+			return Str{B: append([]BV{}, sliceBytes(sl)...)}
+		},
 		"math.Abs": func(in *Interp, fn *ssa.Function, a []Value) Value {
 			f := a[0].(Float).F
 			if f < 0 {
@@ -468,6 +494,164 @@ func fmtErrorf(in *Interp, fn *ssa.Function, a []Value) Value {
 	slot := new(Value)
 	*slot = Struct{F: []Value{msg}}
 	return Iface{T: types.NewPointer(t), V: slot}
+}
+
+// bytesCompare is the three-way lexicographic comparison (-1, 0, +1) as one 64-bit value.
+func (in *Interp) bytesCompare(x, y Str) Value {
+	lt := in.resolveBool(in.strLess(x, y))
+	eq := in.resolveBool(in.strEq(x, y))
+	if lt.T == nil && eq.T == nil {
+		switch {
+		case lt.C:
+			return concBV(64, ^uint64(0))
+		case eq.C:
+			return concBV(64, 0)
+		}
+		return concBV(64, 1)
+	}
+	t := in.tc.Ite(in.boolTerm(lt), in.tc.BVConst(64, ^uint64(0)),
+		in.tc.Ite(in.boolTerm(eq), in.tc.BVConst(64, 0), in.tc.BVConst(64, 1)))
+	return in.mkBV(t)
+}
+
+// sortSlice is sort.Slice / sort.SliceStable as a stable insertion sort over the slice's own
+// backing array; every call of less is an ordinary (possibly forking) branch.
+func sortSlice(in *Interp, fn *ssa.Function, a []Value) Value {
+	ifc, ok := a[0].(Iface)
+	if !ok || ifc.T == nil {
+		in.goPanic("sort.Slice: nil interface")
+	}
+	sl, ok := force(ifc.V).(Slice)
+	if !ok {
+		panic(in.unsupported("sort.Slice on a non-slice"))
+	}
+	less, ok := a[1].(*Closure)
+	if !ok || less == nil {
+		in.goPanic("sort.Slice: nil less function")
+	}
+	if len(sl.A) > 8 {
+		panic(in.unsupported("sort.Slice on more than 8 elements"))
+	}
+	for i := 1; i < len(sl.A); i++ {
+		for j := i; j > 0; j-- {
+			r := in.invoke(less, []Value{concBV(64, uint64(j)), concBV(64, uint64(j-1))}, less.Env)
+			b, ok := r.(Bool)
+			if !ok {
+				panic(in.unsupported("sort.Slice: less does not return bool"))
+			}
+			if !in.branch(b) {
+				break
+			}
+			sl.A[j], sl.A[j-1] = sl.A[j-1], sl.A[j]
+		}
+	}
+	return nil
+}
+
+// fmtSprintf implements the verbs a refactoring is likely to use for building data strings:
+// %s / %v on strings and byte slices, %x / %X on strings and byte slices (symbolic bytes
+// included), %d on concrete integers, %%. Anything else (flags, widths, other verbs or operand
+// kinds - in this code base only error and log messages) yields the opaque "<sprintf>".
+func fmtSprintf(in *Interp, fn *ssa.Function, a []Value) Value {
+	opaque := strFromGo("<sprintf>")
+	format, ok := a[0].(Str).concrete()
+	if !ok {
+		return opaque
+	}
+	var ops []Value
+	if sl, ok := a[1].(Slice); ok {
+		ops = sl.A
+	}
+	var out []BV
+	k := 0
+	for i := 0; i < len(format); i++ {
+		c := format[i]
+		if c != '%' {
+			out = append(out, BV{W: 8, C: uint64(c)})
+			continue
+		}
+		i++
+		if i >= len(format) {
+			return opaque
+		}
+		verb := format[i]
+		if verb == '%' {
+			out = append(out, BV{W: 8, C: '%'})
+			continue
+		}
+		if k >= len(ops) {
+			return opaque
+		}
+		ifc, ok := ops[k].(Iface)
+		k++
+		if !ok || ifc.T == nil {
+			return opaque
+		}
+		var bs []BV
+		isBytes := false
+		switch v := force(ifc.V).(type) {
+		case Str:
+			bs, isBytes = v.B, true
+		case Slice:
+			if bt, ok := ifc.T.Underlying().(*types.Slice); ok {
+				if eb, ok := bt.Elem().Underlying().(*types.Basic); ok && eb.Kind() == types.Uint8 {
+					bs, isBytes = sliceBytes(v), true
+				}
+			}
+		case BV:
+			if verb == 'd' || verb == 'v' {
+				r := in.resolveBV(v)
+				if r.T != nil {
+					return opaque
+				}
+				signed := false
+				if bt, ok := ifc.T.Underlying().(*types.Basic); ok {
+					signed = bt.Info()&types.IsUnsigned == 0
+				}
+				if signed {
+					x := int64(r.C)
+					if r.W < 64 {
+						x = int64(r.C<<(64-uint(r.W))) >> (64 - uint(r.W))
+					}
+					out = append(out, strFromGo(strconv.FormatInt(x, 10)).B...)
+				} else {
+					out = append(out, strFromGo(strconv.FormatUint(r.C, 10)).B...)
+				}
+				continue
+			}
+			return opaque
+		default:
+			return opaque
+		}
+		if !isBytes {
+			return opaque
+		}
+		switch verb {
+		case 's', 'v':
+			if verb == 'v' {
+				if _, isStr := force(ifc.V).(Str); !isStr {
+					return opaque // %v of a byte slice prints a list of numbers
+				}
+			}
+			out = append(out, bs...)
+		case 'x', 'X':
+			digits := strFromGo("0123456789abcdef")
+			if verb == 'X' {
+				digits = strFromGo("0123456789ABCDEF")
+			}
+			for _, b := range bs {
+				hi := in.convertBV(in.bvBin("bvlshr", b, concBV(8, 4)), false, 64)
+				lo := in.convertBV(in.bvBin("bvand", b, concBV(8, 15)), false, 64)
+				out = append(out, in.strIndex(digits, hi).(BV), in.strIndex(digits, lo).(BV))
+			}
+		default:
+			return opaque
+		}
+	}
+	if k != len(ops) {
+		return opaque
+	}
+	return Str{B: out}
 }
 
 func stringsJoin(in *Interp, fn *ssa.Function, a []Value) Value {
